@@ -317,9 +317,12 @@ class DisabledBlockStream(Stream):
             return {"err": type(e).__name__}
 
     def oracle(self, case, obs):
-        if obs.get("err") != "DisabledTagError":
-            return (f"disabled|render+block|include-ran", f"include inside a block of a rendered partial gave {obs}")
+        if case.get("where") in ("child", "base") and obs.get("err") != "DisabledTagError":
+            return ("disabled|render+block|include-ran", f"include inside a block of a rendered partial gave {obs}")
         return None
+
+    def shrink_candidates(self, case):
+        return []
 
 
 def streams(ctx):
